@@ -151,6 +151,9 @@ pub enum Step {
     Zero { g: u8, a: H },
     /// Edwards -> Montgomery u
     ToMont { a: H },
+    /// the public scalar API (operators, inversion, the ff::Field / PrimeField surface) on two scalars: values are not
+    /// decided by any claimed property; the step exists so that checked builds execute it (C11) and configurations are compared on it (C05)
+    SArith { a: Sc, b: Sc },
     /// RistrettoPoint::double_and_compress_batch
     Batch { hs: Vec<H> },
     /// replace the internal representative of Ristretto handle a by P + T4[j] (hook)
@@ -247,6 +250,7 @@ impl Step {
             Step::Eq { .. } => "Eq",
             Step::Pred { .. } => "Pred",
             Step::Zero { .. } => "Zero",
+            Step::SArith { .. } => "SArith",
             Step::ToMont { .. } => "ToMont",
             Step::Batch { .. } => "Batch",
             Step::Rerep { .. } => "Rerep",
